@@ -605,6 +605,46 @@ def filter_nodes(nodes: Iterable[ast.AST], template: Template) -> Iterable[ast.A
             yield node
 
 
+def _parse_for_comparison(source: str) -> ast.Module | None:
+    for candidate in (source, textwrap.dedent(source)):
+        try:
+            root = ast.parse(candidate)
+        except (SyntaxError, ValueError, RecursionError, MemoryError):
+            continue
+
+        # Whitespace inside docstrings is layout: the code formatter normalises it as well.
+        for node in ast.walk(root):
+            if isinstance(node, (ast.Module, ast.ClassDef, ast.FunctionDef, ast.AsyncFunctionDef)):
+                if ast.get_docstring(node, clean=False) is not None:
+                    docstring = node.body[0].value
+                    docstring.value = " ".join(docstring.value.split())
+
+        return root
+
+    return None
+
+
+def keeps_syntax_tree(old_source: str, new_source: str) -> bool:
+    """Determine if new_source is old_source with another layout.
+
+    A rule that edits the text of a module knows nothing of string literals, and the blanks,
+    tabs and blank lines inside a literal are part of its value.
+
+    Args:
+        old_source (str): Python source code
+        new_source (str): The same code with another layout
+
+    Returns:
+        bool: True if both have the same syntax tree, whitespace inside docstrings aside.
+    """
+    old_root = _parse_for_comparison(old_source)
+    if old_root is None:
+        return True  # Not python to begin with, so there is no syntax tree to keep
+
+    new_root = _parse_for_comparison(new_source)
+    return new_root is not None and ast.dump(old_root) == ast.dump(new_root)
+
+
 @functools.lru_cache(maxsize=100_000)
 def is_valid_python(source: str) -> bool:
     """Determine if source code is valid python.
